@@ -267,11 +267,72 @@ func (fr *Frame) defaultCall(st *State, sig *types.Signature, name string, repoC
 	} else {
 		u.callsNoEffect[name] = true
 	}
+	if !repoCode {
+		// a function literal handed to code outside the repository (sync.Map.Range, sync.Once.Do, sort.Slice ...): it may be
+		// run any number of times, so the variables it captures by reference hold unknown values afterwards
+		for _, a := range args {
+			if a.Fn == nil || len(a.Bind) == 0 {
+				continue
+			}
+			for k, b := range a.Bind {
+				if k >= len(a.Fn.FreeVars) {
+					break
+				}
+				pt, ok := a.Fn.FreeVars[k].Type().Underlying().(*types.Pointer)
+				if !ok || (b.T == "" && b.Loc == nil) || !storesToFreeVar(a.Fn, a.Fn.FreeVars[k]) {
+					continue
+				}
+				u.note("function literal %s handed to %s: may run any number of times; assumed to modify only the variables it captures (their values are unknown afterwards)", a.Fn.Name(), name)
+				nv := fr.havocVal(pt.Elem(), fmt.Sprintf("%scb.%s.%s", fr.prefix, a.Fn.Name(), a.Fn.FreeVars[k].Name()))
+				u.loadedFacts(st, nv)
+				u.store(st, b, pt.Elem(), nv)
+			}
+		}
+	}
 	res := fr.freshResults(sig, "call")
 	for _, r := range res {
 		u.loadedFacts(st, r)
 	}
+	if stdNonNilResult[name] && len(res) > 0 && res[0].T != "" {
+		if _, isPtr := sig.Results().At(0).Type().Underlying().(*types.Pointer); isPtr {
+			u.note("standard library: %s never returns nil (documented; trusted)", name)
+			u.assumeG(st, not(eq(res[0].T, "0")))
+		}
+	}
 	return resultVal(u, sig, res)
+}
+
+// storesToFreeVar: does the function literal assign to this captured variable (directly, or by handing it on to a
+// nested literal)?
+func storesToFreeVar(f *ssa.Function, fv *ssa.FreeVar) bool {
+	for _, b := range f.Blocks {
+		for _, in := range b.Instrs {
+			switch x := in.(type) {
+			case *ssa.Store:
+				if x.Addr == fv {
+					return true
+				}
+			case *ssa.MakeClosure:
+				for _, bb := range x.Bindings {
+					if bb == fv {
+						return true
+					}
+				}
+			case ssa.CallInstruction:
+				for _, a := range x.Common().Args {
+					if a == fv {
+						return true
+					}
+				}
+			}
+		}
+	}
+	return false
+}
+
+// stdNonNilResult: standard-library constructors whose (first) result is documented never to be nil.
+var stdNonNilResult = map[string]bool{
+	"time.NewTimer": true, "time.NewTicker": true, "time.AfterFunc": true,
 }
 
 // ---------------------------------------------------------------------------
